@@ -2,8 +2,11 @@ package rules
 
 import (
 	"fmt"
-	"os"
 	"go/types"
+	"os"
+	"path/filepath"
+	"reflect"
+	"regexp"
 	"sort"
 	"strings"
 
@@ -1114,4 +1117,81 @@ func c17DueTimeKeepsItsFraction(c *Ctx, rule string) {
 		}
 	}
 	c.R.Check(bad == "", rule, "timers: a due time is never written without its fraction of a second", "sio/timers.go", fmt.Sprintf("%d explicit formattings of TimerEntry.At, none with a layout that drops the fraction (the default JSON form of time.Time keeps nanoseconds)", n), "a timer entry's due time is formatted with the layout "+bad+", which has no fractional seconds: the time read back after a restart is up to a second earlier, and the resumed timer fires early")
+}
+
+// c19SessionFiles: C19-R10.  The repository's own session files (specs/tests/*.yaml) are read by the YAML decoder, which
+// silently ignores a key it does not know.  Every key in those files that is a (Go, JSON or YAML) name of a field of
+// Session, IO or Output is a name the YAML decoder knows for that field's struct: otherwise the file's guard, timeout or
+// forbidden flag is dropped without a word and the session passes for want of a condition.  (Static: tags from go/types,
+// keys from the files' text; nothing is decoded or run.)
+func c19SessionFiles(c *Ctx, rule string) {
+	pkg := c.P.ByPath[prog.Abs("tools/expect")]
+	if pkg == nil {
+		c.R.Break(rule + ": package tools/expect not loaded")
+		return
+	}
+	yamlNames := map[string]bool{}
+	otherNames := map[string]string{} // lower-cased Go / JSON name -> Type.Field
+	for _, tn := range []string{"Session", "IO", "Output"} {
+		obj := pkg.Types.Scope().Lookup(tn)
+		if obj == nil {
+			continue
+		}
+		st, ok := obj.Type().Underlying().(*types.Struct)
+		if !ok {
+			continue
+		}
+		for i := 0; i < st.NumFields(); i++ {
+			f := st.Field(i)
+			tag := reflect.StructTag(st.Tag(i))
+			y := strings.Split(tag.Get("yaml"), ",")[0]
+			j := strings.Split(tag.Get("json"), ",")[0]
+			if y == "-" {
+				continue
+			}
+			if y == "" {
+				y = strings.ToLower(f.Name())
+			}
+			yamlNames[y] = true
+			otherNames[strings.ToLower(f.Name())] = tn + "." + f.Name()
+			if j != "" && j != "-" {
+				otherNames[strings.ToLower(j)] = tn + "." + f.Name()
+			}
+		}
+	}
+	if len(yamlNames) == 0 {
+		c.R.Break(rule + ": no fields of tools/expect Session/IO/Output found")
+		return
+	}
+	files, _ := filepath.Glob(filepath.Join(c.P.Dir, "specs", "tests", "*.yaml"))
+	sort.Strings(files)
+	keyRe := regexp.MustCompile(`^\s*(?:-\s+)?([A-Za-z][A-Za-z0-9_]*):(?:\s|$)`)
+	nkeys := 0
+	var bad []string
+	for _, fn := range files {
+		bs, err := os.ReadFile(fn)
+		if err != nil {
+			continue
+		}
+		for ln, line := range strings.Split(string(bs), "\n") {
+			m := keyRe.FindStringSubmatch(line)
+			if m == nil {
+				continue
+			}
+			k := m[1]
+			field, isField := otherNames[strings.ToLower(k)]
+			if !isField && !yamlNames[k] {
+				continue // a key of a message, a pattern or a source
+			}
+			nkeys++
+			if !yamlNames[k] {
+				bad = append(bad, fmt.Sprintf("%s:%d uses %q for %s, which the YAML decoder does not know", strings.TrimPrefix(fn, c.P.Dir+"/"), ln+1, k, field))
+			}
+		}
+	}
+	if len(files) == 0 {
+		c.R.Discharge(rule, "session files: every field key is known to the YAML decoder", "specs/tests", "no session files in the repository")
+		return
+	}
+	c.R.Check(len(bad) == 0, rule, "session files: every field key is known to the YAML decoder", "specs/tests", fmt.Sprintf("%d keys in %d files name fields of Session/IO/Output, all by their YAML names", nkeys, len(files)), strings.Join(bad, "; ")+": the decoder ignores the key, so the condition it states (a guard, a timeout, a forbidden output) is not part of the session and the session passes without it")
 }
